@@ -100,7 +100,7 @@ def run(chk):
     groups = [ex[i:i + B] for i in range(0, len(ex), B)]
     cases = [(DOC, "", [e for _, e in g]) for g in groups]
     impl, spec = XP.run_queries("qfresh", cases, quirks="")
-    cur = lib.run_lines(lib.model_driver(), [lib.req("queryq", "wr", t, b, *es) for t, b, es in cases], timeout=900)
+    cur = lib.run_lines(lib.model_driver(), [lib.req("queryq", "r", t, b, *es) for t, b, es in cases], timeout=900)
     findings = {f["id"]: f for f in lib.load_findings("C09") if f["kind"] == "known"}
     mfail, tdis = [], []
     kinds, outcomes = {}, {}
